@@ -379,6 +379,20 @@ func WorkerMain(t *testing.T, prop, tier string, lo, hi uint64, budget time.Dura
 			seenKeys[v.Key()] = true
 			before := countValues(res.Streams)
 			run := func(replay map[string][]uint32, maxScans int) *RunResult { return j.run(replay, maxScans, newStats()) }
+			// One seed must be one execution. If the recorded run does not repeat itself exactly, something the
+			// simulator does not own decides part of it - typically the code under test ranging over a Go map. A
+			// violation found that way cannot be replayed, so it is not reported as one: the check ends as
+			// machinery trouble (exit 2) and says why.
+			repeats := true
+			for i := 0; i < 2 && repeats; i++ {
+				if again := run(res.Streams, 0); again.LogHash != res.LogHash {
+					repeats = false
+				}
+			}
+			if !repeats {
+				rep.HarnessErrors = append(rep.HarnessErrors, fmt.Sprintf("seed %d (%s): the same seeded run does not repeat itself (event logs differ): the code under test, or the harness, is not deterministic; %s is not reported", j.seed, j.driver, v.Key()))
+				continue
+			}
 			streams, horizon, best, execs := minimise(run, res.Streams, v, 300)
 			rf := ReplayFile{V: HarnessVersion, Property: v.Property, Rule: v.Rule, Sub: v.Sub, Site: v.Site, Driver: j.driver, RunSeed: j.seed, Tier: tier, Variant: j.variant, Profile: j.profile, Force: j.force, MaxScans: horizon, Streams: streams}
 			final := run(streams, horizon)
